@@ -25,6 +25,7 @@ type Failure struct {
 	File    string
 	NDecls  int // declarations / axioms that existed when the query was made (0: all)
 	Weak    []string // why this failure may only be a missing contract (see State.Weak)
+	Cuts    []string // loops whose invariants this path relied on
 }
 
 type Oblig struct {
@@ -65,6 +66,8 @@ type Unit struct {
 	uncontracted   map[string]*ssa.Function // functions of the module called here that have no contract
 	roMaps         map[string]bool // constants naming read-only map globals
 	snapD          map[string]bool // designators named in at_return() clauses of this unit
+	refute         bool            // second run: loops are explored exactly up to unrollBound, nothing is cut (refutations only)
+	brokenLoops    map[string]bool // loops one of whose invariant clauses could not be evaluated
 	keepProved     bool
 	havocMemo      map[string]Term
 	obs            map[string]*Oblig
@@ -476,7 +479,7 @@ func (u *Unit) Prove(st *State, name, class string, tags []string, pos token.Pos
 		st.Assume(goal)
 		return true
 	}
-	f := &Failure{Asserts: append(append([]string(nil), st.PCs...), Not(goal).String()), Goal: goal.String(), Result: r, Trace: append([]string(nil), st.Trace...), NDecls: len(u.decls), Weak: st.Weak}
+	f := &Failure{Asserts: append(append([]string(nil), st.PCs...), Not(goal).String()), Goal: goal.String(), Result: r, Trace: append([]string(nil), st.Trace...), NDecls: len(u.decls), Weak: st.Weak, Cuts: st.Cuts}
 	switch class {
 	case "bounds", "nilmap", "div0", "typeassert", "makeslice", "chan-closed":
 		// the real program panics here: what follows on this path is not a reachable
